@@ -193,6 +193,15 @@ def replay_file(pid, path, mod=None):
     return True, "ok"
 
 
+def _replay_task(args):
+    pid, path = args
+    try:
+        ok, msg = replay_file(pid, path)
+        return path, ok, msg
+    except Exception as e:  # noqa: BLE001
+        return path, "error", "".join(traceback.format_exception(type(e), e, e.__traceback__))[-2000:]
+
+
 def validate_evidence(ev):
     schema_path = "/root/.vp/EVIDENCE.schema.json"
     try:
@@ -258,11 +267,16 @@ def main(argv):
     # 1. committed regression corpus (seconds-long replay tier)
     replays = sorted(glob.glob(os.path.join(VERIF, "replays", pid, "*.json")))
     n_replay_ok = 0
-    for path in replays:
-        try:
-            ok, msg = replay_file(pid, path, mod)
-        except Exception as e:  # noqa: BLE001
-            harness_errors.append(("replay", path, "".join(traceback.format_exception(type(e), e, e.__traceback__))[-2000:]))
+    # (each replay runs in its own forked child: the runner process itself never calls the library, so that the shard processes
+    #  forked from it start from a state no library call has touched - module-level caches would otherwise be inherited)
+    if replays:
+        with mp.get_context("fork").Pool(min(NPROC, len(replays)), maxtasksperchild=1) as pool:
+            replay_results = pool.map(_replay_task, [(pid, path) for path in replays])
+    else:
+        replay_results = []
+    for path, ok, msg in replay_results:
+        if ok == "error":
+            harness_errors.append(("replay", path, msg))
             continue
         evaluations += 1
         if ok is None:
